@@ -29,7 +29,13 @@ def check(chk, thorough=False):
     chk.run('C04.e', 'R-CLAMP', 'every write of the send segment size is clamped by the peer segment MRU; only it sizes a segment', lambda ob: c04e(tree, ob), floor=2)
     chk.run('C04.f', 'R-FLOW', 'each XFER_ACK echoes the segment id, the flags and the length after the write', lambda ob: c04f(tree, ob), floor=2)
     chk.run('C04.g', 'R-WHO', 'transfer ids come from a counter that only increases', lambda ob: c04g(tree, ob), floor=3)
+    chk.run('C04.i', 'R-FLOW', 'the octets written are exactly the encoded messages in order: byte buffers only appended and prefix-dropped by what was accepted (= C01.b)', lambda ob: _c01b(tree, ob), floor=7)
     chk.run('C04.h', 'R-SCHEMA', 'message type codes and field layouts equal RFC 9174', lambda ob: c04h(tree, ob), floor=7)
+
+
+def _c01b(tree, ob):
+    from .c01 import c01b
+    return c01b(tree, ob)
 
 
 def _c09c(tree, ob):
